@@ -8,6 +8,8 @@ C07 -- pure-component and mixture enthalpy / entropy are thermodynamically consi
   c07.mixture  depth 1   configuration = (chemical tuple, phase, T, P); actions = compositions on the simplex grid (step 1/4, incl. vertices) x
                          scale: H, Cn, S of `thermo.mixture` and of a Stream against the mole-weighted sums of the pure values; extensivity;
                          S_mix - sum n_i S_i == -R sum n_i ln x_i.
+  c07.setters  depth 3/4 a private copy of a chemical edited through every public setter that feeds `_init_energies` (Tb, Tm, Hfus, S0, phase_ref,
+                         copy, reset_free_energies); reference-state, jump and path clauses re-evaluated after every edit.
   c07.mixing   depth 2/3 universe of streams at one (T, P); action = mix two members into a fresh receiver which joins the universe (mixes of
                          mixes): H and C additive, S(mix) >= S(a) + S(b) and equal to the ideal mixing gain.
 
@@ -477,4 +479,107 @@ class Mixing(System):
     def outcome(self, st, a, obs): return repr(obs)
 
 
-SYSTEMS = [Pure(), Mixture(), Mixing()]
+# =========================================================================================================================================
+class Setters(System):
+    """history layer: a chemical (a private copy of a database chemical) is edited through every public setter that feeds
+    `Chemical._init_energies` (Tb, Tm, Hfus, S0, phase_ref, copy, reset_free_energies); after EVERY step the reference-state, jump and
+    path-assembly clauses are re-evaluated on the mutated chemical, against the walk over the primitives with the chemical's CURRENT public
+    Tm, Tb, Hfus, Hvap(Tb), S0, phase_ref."""
+    name = 'c07.setters'
+    merge_across_configs = False
+    PTS = [('s', 260.), ('l', 275.), ('l', 340.), ('g', 340.), ('g', 450.)]
+
+    def warm(self): fx.tmo()
+    def depth(self, tier): return 3 if tier == 'quick' else 4
+
+    def configs(self, tier, seed):
+        ids = ['Water', 'Ethanol', 'Hexane', 'AceticAcid'] if tier == 'quick' else ['Water', 'Ethanol', 'Hexane', 'AceticAcid', 'Benzene', 'Glycerol', 'Octanol', 'Butane']
+        cf = [(ID, p) for ID in ids for p in 'slg']
+        k = seed % len(cf)
+        return cf[k:] + cf[:k]
+
+    def build(self, config):
+        ID, p = config
+        base = chem(ID, ('ref', p))
+        fp = (base.Tm, base.Tb, base.Hfus, base.S0, base.H('g', 400., 101325.), base.S('l', 300., 101325.) if p != 's' or base.Sfus is not None else None)
+        key = ('fp', ID, p)
+        if key not in _chem: _chem[key] = fp
+        elif _chem[key] != fp:
+            raise Violation('copy-not-independent', f'editing a copy of {ID} changed the chemical it was copied from: {_chem[key]} -> {fp}')
+        return dict(config=config, c=base.copy(ID + '_edit'), last=None, n=0)
+
+    def canon(self, st):
+        c = st['c']
+        def fdata(h):
+            out = []
+            for ph in 'slg':
+                f = getattr(h, ph, None)
+                d = getattr(f, '__dict__', {})
+                out.append(tuple(sorted((k, fx.r12(v)) for k, v in d.items() if isinstance(v, (int, float)))))
+            return tuple(out)
+        return (st['config'], c.phase_ref, fx.r12(c.Tm), fx.r12(c.Tb), fx.r12(c.Hfus), None if c.Sfus is None else fx.r12(c.Sfus), fx.r12(c.S0),
+                fdata(c._H), fdata(c._S))
+
+    def actions(self, st):
+        c = st['c']
+        acts = [('Tb', 4.), ('Tb', -3.), ('Tm', 2.), ('Hfus', 1.125), ('S0', 5.), ('copy',), ('reset',)]
+        acts += [('phase_ref', q) for q in 'slg' if q != c.phase_ref]
+        return acts
+
+    def step(self, st, a):
+        c = st['c']
+        op = a[0]
+        try:
+            if op == 'Tb': c.Tb = c.Tb + a[1]
+            elif op == 'Tm': c.Tm = c.Tm + a[1]
+            elif op == 'Hfus': c.Hfus = c.Hfus * a[1]
+            elif op == 'S0': c.S0 = c.S0 + a[1]
+            elif op == 'phase_ref': c.phase_ref = a[1]
+            elif op == 'copy': st['c'] = c.copy(c.ID + 'c')
+            elif op == 'reset': c.reset_free_energies()
+            else: raise ValueError(a)
+        except UNDOC as e:
+            raise Violation('unexpected-exception', f'{st["config"]} {a!r}: {type(e).__name__}: {e}', match=dict(exc=type(e).__name__, after=op))
+        st['last'] = op; st['n'] += 1
+        return ('edit', op)
+
+    def invariants(self, st):
+        c = st['c']; op = st['last'] or 'construct'
+        ID = st['config'][0]
+        mode = ('ref', c.phase_ref)
+        out = []
+        P = 101325.
+        def V(clause, msg, resid, **mm):
+            out.append(Violation(clause, f'{ID} (ref {c.phase_ref}) after {op}: ' + msg, match=dict(after=op, **mm), residual=resid))
+        try:
+            ph = c.phase_ref
+            H0 = c.H(ph, c.T_ref, c.P_ref); S00 = c.S(ph, c.T_ref, c.P_ref)
+            if abs(H0 - c.H_ref) > 1e-9: V('reference-H', f'H(ref state) = {H0!r}', abs(H0))
+            if abs(S00 - c.S0) > 1e-9 * max(1., abs(c.S0)): V('reference-S', f'S(ref state) = {S00!r}, S0 = {c.S0!r}', abs(S00 - c.S0))
+            for tr, Tt, L, hi, lo in (('vap', c.Tb, c.Hvap(c.Tb), 'g', 'l'), ('fus', c.Tm, c.Hfus, 'l', 's')):
+                Hh, Hl = c.H(hi, Tt, P), c.H(lo, Tt, P)
+                if not (abs(Hh - Hl - L) <= 1e-9 * max(abs(L), abs(Hh), abs(Hl)) + 1e-9):
+                    V('jump-H', f'H_{hi}({Tt}) - H_{lo}({Tt}) = {Hh - Hl!r}, latent heat = {L!r}', abs(Hh - Hl - L), transition=tr)
+                Pterm = -R * math.log(P / c.P_ref) if hi == 'g' else 0.
+                Sh, Sl = c.S(hi, Tt, P), c.S(lo, Tt, P)
+                dS = Sh - Sl - Pterm
+                if not (abs(dS - L / Tt) <= 1e-9 * max(abs(L / Tt), abs(Sh), abs(Sl)) + 1e-6 * abs(Pterm) + 1e-9):
+                    V('jump-S', f'S_{hi}({Tt}) - S_{lo}({Tt}) = {dS!r}, latent heat / T = {L / Tt!r}', abs(dS - L / Tt), transition=tr)
+            if not out:
+                for q, T in self.PTS:
+                    Hr, Sr, Pterm, sH, sS = path_HS(c, mode, q, T, P)
+                    H = c.H(q, T, P); S = c.S(q, T, P) - Pterm
+                    if not (abs(H - Hr) <= 1e-9 * sH + 1e-9):
+                        V('assembly-H', f'H({q}, {T}) = {H!r}, path from the reference state gives {Hr!r}', abs(H - Hr), phase=q); break
+                    if not (abs(S - Sr) <= 1e-9 * sS + 1e-6 * abs(Pterm) + 1e-9):
+                        V('assembly-S', f'S({q}, {T}) = {S + Pterm!r}, path from the reference state gives {Sr + Pterm!r}', abs(S - Sr), phase=q); break
+        except UNDOC as e:
+            out.append(Violation('unexpected-exception', f'{ID} (ref {c.phase_ref}) after {op}: {type(e).__name__}: {e}',
+                                 match=dict(exc=type(e).__name__, after=op)))
+        return out[:1]
+
+    def nontrivial(self, st, a, obs): return a[0] not in ('copy', 'reset')
+    def outcome(self, st, a, obs): return repr((st['c'].phase_ref, a[0]))
+
+
+SYSTEMS = [Pure(), Mixture(), Mixing(), Setters()]
